@@ -19,7 +19,9 @@
 #ifndef VF_LIB
 #define VF_LIB "cJSON_Utils.c"
 #endif
+#include "vf_trap.h"
 #include VF_LIB
+#include "vf_untrap.h"
 
 static cJSON obj, kid[K + 1], target; static unsigned n, f, calls;
 CJSON_PUBLIC(char *) cJSONUtils_FindPointerFromObjectTo(const cJSON * const object, const cJSON * const t)
